@@ -1,0 +1,24 @@
+//go:build verif
+
+package sourcerunner
+
+import (
+	"context"
+
+	"reduction.dev/reduction/batching"
+	"reduction.dev/reduction/proto"
+)
+
+// Accessors for the verification harness (/verif). Compiled only with -tags verif.
+
+// VerifRouteIndex builds the runner's operator cluster exactly as the source
+// runner does and reports the index of the operator a key is routed to.
+func VerifRouteIndex(ctx context.Context, keyGroupCount int, operators []proto.Operator, key []byte) int {
+	c := newOperatorCluster(ctx, &newClusterParams{
+		keyGroupCount:  keyGroupCount,
+		operators:      operators,
+		batchingParams: batching.EventBatcherParams{MaxSize: 1},
+		errChan:        make(chan error, 1),
+	})
+	return c.keySpace.RangeIndex(key)
+}
